@@ -134,61 +134,118 @@ Section Frag.
   Variable p : fcprog.
   Definition data_ty (ty : option fty) : bool :=
     match ty with Some t => negb (f_is_codata p t) | None => false end.
+  (* the KIND of a term: is its (annotated) type a codata type? *)
+  Definition tkind (t : fterm) : bool := f_is_codata_o p (fterm_type t).
+  (* the kind of the result of a destructor: some destructor of that name returns codata *)
+  Definition dkind (x : fname) : bool :=
+    existsb (fun cd => existsb (fun d => String.eqb (fdtname d) x && f_is_codata p (fdtcont d)) (fcodtors cd))
+            (fcpcodata p).
 
-  (* the fragment for which the simulation is proved: everything except codata (new, destructor
-     calls, codata-typed let-bindings and arguments: the by-name part of the language) and calls of
-     `main` (mis-translated, see the finding call-to-main) *)
   Definition arg_chi (y : fterm) : fchi := match y with FVar _ _ (Some FCns) => FCns | _ => FPrd end.
-  (* the kinds of the arguments of a call are those of the callee's parameters *)
-  Definition call_kinds (f : fname) (args : list fterm) : bool :=
+  Definition chi_kind_eqb (a b : fchi * bool) : bool := fchi_eqb (fst a) (fst b) && Bool.eqb (snd a) (snd b).
+  (* the kinds (chirality, data/codata) of the arguments of a call are those of the callee's parameters,
+     and the kind of the call is that of the callee's return type *)
+  Definition call_kinds (f : fname) (args : list fterm) (ret : option fty) : bool :=
     match ffind_def p f with
-    | Some d => list_eqb fchi_eqb (map arg_chi args) (map fbchi (fdctx d))
+    | Some d => list_eqb chi_kind_eqb (map (fun y => (arg_chi y, tkind y)) args)
+                                      (map (fun b => (fbchi b, f_is_codata p (fbty b))) (fdctx d))
+                && Bool.eqb (f_is_codata_o p ret) (f_is_codata p (fdret d))
     | None => true
     end.
+  Definition scrut_atomic (t : fterm) : bool := match t with FVar _ _ _ | FNew _ _ => true | _ => false end.
+  Definition atomic (t : fterm) : bool := match t with FVar _ _ _ | FLit _ => true | _ => false end.
+  Definition ctx_data (ctx : fctx) : bool :=
+    forallb (fun b => fchi_eqb (fbchi b) FPrd && negb (f_is_codata p (fbty b))) ctx.
+
+  (* the fragment for which the simulation is proved: everything except calls of `main` (mis-translated,
+     finding call-to-main), continuations or by-name values stored in data or passed to destructors,
+     conditionals / case / labels of codata type, and destructor calls in which both the scrutinee and
+     some argument need evaluation (there the translation evaluates the scrutinee BEFORE the
+     arguments, the source semantics after: the property's precondition effect_sequenced) *)
   Fixpoint frag (t : fterm) : bool :=
     let arg_ok := fun (y : fterm) =>
       match y with
       | FVar _ _ (Some FCns) => true
-      | _ => frag y && data_ty (fterm_type y)
+      | _ => frag y && is_some (fterm_type y)
       end in
+    let darg_ok := fun (y : fterm) => negb (is_cns_var y) && frag y && data_ty (fterm_type y) in
     match t with
     | FVar _ _ _ | FLit _ => true
     | FOp a _ b => frag a && frag b
     | FIfC _ a b t1 t2 _ => frag a && (match b with Some b' => frag b' | None => true end) && frag t1 && frag t2
     | FPrint _ a next _ => frag a && frag next
-    | FLet _ vty bound body _ => negb (f_is_codata p vty) && frag bound && frag body
-    | FCall f args _ => negb (String.eqb f "main") && call_kinds f args && forallb arg_ok args
-    | FCtor _ args _ => forallb (fun y => negb (is_cns_var y)) args && forallb arg_ok args
+    | FLet _ _ bound body _ => frag bound && frag body
+    | FCall f args ret => negb (String.eqb f "main") && call_kinds f args ret && forallb arg_ok args
+    | FCtor _ args _ => forallb darg_ok args
     | FCase scrut _ cls _ =>
         frag scrut && data_ty (fterm_type scrut)
         && forallb (fun c => match c with FClause _ _ names ctx body =>
-                                list_eqb String.eqb names (fvars ctx)
-                                && forallb (fun b => fchi_eqb (fbchi b) FPrd) ctx && frag body end) cls
+                                list_eqb String.eqb names (fvars ctx) && ctx_data ctx && frag body end) cls
     | FLabel _ t' ty => data_ty ty && frag t'
     | FGoto _ t' _ => frag t'
     | FExit a _ => frag a
     | FParen t' => frag t'
-    | FDtor _ _ _ _ _ | FNew _ _ => false
+    | FNew cls _ =>
+        forallb (fun c => match c with FClause _ _ names ctx body =>
+                             list_eqb String.eqb names (fvars ctx) && ctx_data ctx && frag body end) cls
+    | FDtor scrut _ _ args _ =>
+        frag scrut && forallb darg_ok args && (scrut_atomic scrut || forallb atomic args)
     end.
   Definition arg_ok (y : fterm) : bool :=
     match y with
     | FVar _ _ (Some FCns) => true
-    | _ => frag y && data_ty (fterm_type y)
+    | _ => frag y && is_some (fterm_type y)
     end.
+  Definition darg_ok (y : fterm) : bool := negb (is_cns_var y) && frag y && data_ty (fterm_type y).
 
+  (* the kind discipline (a consequence of typing): where the translation hands the SAME continuation to a
+     sub-term, the sub-term has the kind of the term; operands, conditions, printed and exit values,
+     constructor and destructor arguments, case scrutinees are data; a let-bound term has the kind of the
+     variable's type; a `new` is codata and each clause body has the kind its destructor returns; a
+     destructor call has the kind its destructor returns and its scrutinee is codata *)
+  Fixpoint kd (t : fterm) : bool :=
+    let arg_kd := fun (y : fterm) => match y with FVar _ _ (Some FCns) => true | _ => kd y end in
+    let same := fun (u : fterm) (ty : option fty) => Bool.eqb (tkind u) (f_is_codata_o p ty) in
+    match t with
+    | FVar _ _ _ | FLit _ => true
+    | FOp a _ b => kd a && kd b && negb (tkind a) && negb (tkind b)
+    | FIfC _ a b t1 t2 ty =>
+        kd a && (match b with Some b' => kd b' && negb (tkind b') | None => true end) && kd t1 && kd t2
+        && negb (tkind a) && negb (tkind t1) && negb (tkind t2) && negb (f_is_codata_o p ty)
+    | FPrint _ a next ty => kd a && kd next && negb (tkind a) && same next ty
+    | FLet _ vty bound body ty =>
+        kd bound && kd body && Bool.eqb (tkind bound) (f_is_codata p vty) && same body ty
+    | FCall _ args _ => forallb arg_kd args
+    | FCtor _ args ty => forallb arg_kd args && negb (f_is_codata_o p ty)
+    | FCase scrut _ cls ty =>
+        kd scrut && negb (f_is_codata_o p ty)
+        && forallb (fun c => match c with FClause _ _ _ _ body => kd body && negb (tkind body) end) cls
+    | FLabel _ t' ty => kd t' && negb (tkind t') && negb (f_is_codata_o p ty)
+    | FGoto _ t' _ => kd t'
+    | FExit a _ => kd a && negb (tkind a)
+    | FParen t' => kd t'
+    | FNew cls ty =>
+        f_is_codata_o p ty
+        && forallb (fun c => match c with FClause _ x _ _ body => kd body && Bool.eqb (tkind body) (dkind x) end) cls
+    | FDtor scrut x _ args ty =>
+        kd scrut && tkind scrut && forallb arg_kd args && Bool.eqb (f_is_codata_o p ty) (dkind x)
+    end.
+  Definition arg_kd (y : fterm) : bool := match y with FVar _ _ (Some FCns) => true | _ => kd y end.
 End Frag.
 
 
 (* the guard of the preservation theorem, per definition and per program *)
 Definition def_guard (p : fcprog) (d : fdef) : bool :=
   frag p (fdbody d) && ws (compile_ctx (fdctx d)) (fdbody d) && nocap (fdbody d)
-  && (if String.eqb (fdname d) "main" then data_ty p (fterm_type (fdbody d)) else true).
+  && (if String.eqb (fdname d) "main" then data_ty p (fterm_type (fdbody d)) else true)
+  && kd p (fdbody d) && Bool.eqb (tkind p (fdbody d)) (f_is_codata p (fdret d)).
 Definition prog_guard (p : fcprog) : bool := forallb (def_guard p) (fcpdefs p).
 
 
 (* the program guard in terms of the Barendregt condition *)
 Definition def_guard_b (p : fcprog) (d : fdef) : bool :=
   frag p (fdbody d) && ws (compile_ctx (fdctx d)) (fdbody d)
-  && (if String.eqb (fdname d) "main" then data_ty p (fterm_type (fdbody d)) else true).
+  && (if String.eqb (fdname d) "main" then data_ty p (fterm_type (fdbody d)) else true)
+  && kd p (fdbody d) && Bool.eqb (tkind p (fdbody d)) (f_is_codata p (fdret d)).
 Definition frag_prog (p : fcprog) : bool := forallb (def_guard_b p) (fcpdefs p).
 
